@@ -1,7 +1,7 @@
 #!/bin/bash
 # confirm one seeded change: applies on /repo HEAD, demo passes without / fails with, full test-suite unchanged
 id=$1
-src=/verif/work/incoming/$id
+src=/verif/seeded/$id
 wt=/var/tmp/confirm_$id
 out=/verif/work/confirm/$id.txt
 mkdir -p /verif/work/confirm
